@@ -476,6 +476,8 @@ func (p *pool) exec(w *wproc, it queuedJob) *wproc {
 		switch t.Kind {
 		case "lp1":
 			dv.Hist, dv.Cfg, dv.Family = []int64{o.mIdx}, t.N, -1
+		case "lpburst":
+			dv.Cfg, dv.Family = t.N, -2
 		case "lpseq":
 			pi, k := o.mIdx/int64(len(lpAlphabet)), o.mIdx%int64(len(lpAlphabet))
 			if int(pi) < len(t.Prefix) {
